@@ -160,7 +160,9 @@ PyObject* py_bbox_labeled(PyObject* self, PyObject* args) {
     PyArrayObject* array;
     PyArrayObject* output;
     if (!PyArg_ParseTuple(args,"OO", &array, &output)) return NULL;
+    // the values of array index the output: they must be what the caller sees (native byte order)
     if (!numpy::are_arrays(array, output) ||
+            !PyArray_ISNOTSWAPPED(array) ||
             !numpy::is_carray(output)) {
         PyErr_SetString(PyExc_RuntimeError, TypeErrorMsg);
         return 0;
